@@ -447,7 +447,10 @@ class C08(Prop):
             if s["manner"] == "graceful":
                 if gs:
                     # identify the known class precisely: the member's leader exited by itself (was not killed)
-                    known = all(grand[p] in ended_self for p in gs)
+                    # (or was ended by the unhandled SIGUSR1 that a "queued-controls" job sends to its command in the quitting action,
+                    #  before the stop signal's grace period has run out -- the simulated child cannot log its own death then)
+                    usr1 = any(jb["forker"] and jb["state"] == "queued-controls" for jb in s["jobs"])
+                    known = all(grand[p] in ended_self or (usr1 and grand[p] not in alive) for p in gs)
                     c.failing.append({"case": brief, "impl": {"alive_group_members": sorted(gs)},
                                       "clause": "C08: a member of the command's process group survived the graceful quit",
                                       "klass": "group-straggler" if known else None})
